@@ -387,6 +387,8 @@ class ExprMixin:
             if a.ty.scalar and b.ty.scalar and a.ty.sort() is not None and b.ty.sort() is not None:
                 pt = T.Pair(a.ty, b.ty)
                 return T.scalar(pt, pt.mk(a.t, b.t))
+        if len(vals) == 2 and all(v.ty == T.INT for v in vals) and self.cur is not None and "pair_literals" in self.cur.options:
+            return T.scalar(T.TUP, TH.tpair(vals[0].t, vals[1].t))      # a constructor term: equal components give the same tuple
         if all(v.ty == T.INT for v in vals):
             k = fresh("tuplit", T.TupS)
             p.assume(TH.tlen(k) == len(vals))
@@ -584,11 +586,58 @@ class ExprMixin:
             raise Unsupported("slice")
         if isinstance(base.ty, T.Obj) and base.ty.cls == "NpArray2":
             return T.sv_real(base.fields["_m"].val[self.np2_index(base, e.slice, p, f"line {getattr(e, 'lineno', '?')}")])
+        if isinstance(base.ty, T.Bag) and isinstance(e.value, ast.Subscript) and not self.spec_mode:
+            outer = self.ev(e.value.value, p)
+            if isinstance(outer.ty, T.Map) and outer.ty.v == base.ty:
+                return self.bag_position(outer, self.coerce(self.ev(e.value.slice, p), outer.ty.k), self.coerce(self.ev(e.slice, p), T.INT).t, p,
+                                         f"line {getattr(e, 'lineno', '?')}")
         key = self.ev(e.slice, p)
         r = self.subscript(base, key, p, f"line {getattr(e, 'lineno', '?')}")
         if isinstance(base.ty, T.ObjMap) and isinstance(e.value, ast.Name) and not self.spec_mode:
             r.ref = (e.value.id, self.coerce(key, base.ty.k).t)      # d[k] is a reference into d: mutating calls on it update d
         return r
+
+    def bag_fns(self, mty):
+        """Position functions of the lists stored in a dict of lists `d`: BAT(d, k, i) = d[k][i], BIDX(d, k, x) = d[k].index(x)."""
+        nm = "".join(ch if ch.isalnum() else "_" for ch in mty.name)
+        vs = z3.ArraySort(mty.k.sort(), mty.v.sort())
+        return (z3.Function("bagat_" + nm, vs, mty.k.sort(), T.I, mty.v.e.sort()), z3.Function("bagidx_" + nm, vs, mty.k.sort(), mty.v.e.sort(), T.I))
+
+    def bag_position(self, m, k, i, p, note):
+        """d[k][i] for a dict d of lists whose order is not modelled (bags).  ASSUMED (DESIGN §3.3): the list d[k] is some enumeration of
+        its bag - every position holds a member, different positions of a duplicate-free list hold different members, every member has a
+        position; the enumeration is a function of (value of d, k), i.e. two dicts holding the same bags are taken to list them alike."""
+        bat, bidx = self.bag_fns(m.ty)
+        ln = m.ty.v.blen()(m.val[k.t])
+        self._raise_if(p, z3.Not(m.dom[k.t]), "KeyError", note)
+        self._raise_if(p, z3.Or(i >= ln, i < -ln), "IndexError", note)
+        ii = z3.If(i >= 0, i, i + ln) if not z3.is_int_value(i) or i.as_long() < 0 else i
+        mv, kk = self.bag_enum(m, k, p)
+        r = fresh("elem", m.ty.v.e.sort())
+        self._assume(p, r == bat(mv, kk, ii))
+        return T.scalar(m.ty.v.e, r)
+
+    def bag_enum(self, m, k, p):
+        """Assume the enumeration facts of the list d[k] (see bag_position) on this path; returns the named terms of d's value and k.
+        The facts hold unconditionally, so they are not put under the guards of the expression being evaluated."""
+        bat, bidx = self.bag_fns(m.ty)
+        cache = getattr(p.env.get("__bagpos"), "keys", {})
+        key = (m.val.get_id(), k.t.get_id())
+        if key in cache:
+            return cache[key]        # the facts are already on this path (the marker travels with the path's environment when it forks)
+        mv, kk = fresh("dl", m.val.sort()), fresh("dk", k.t.sort())     # named, so that the quantifier patterns are plain applications
+        p.env["__bagpos"] = SV(T.NONE, keys={**cache, key: (mv, kk)})
+        p.assume(z3.And(mv == m.val, kk == k.t))
+        bb = mv[kk]
+        ln = m.ty.v.blen()(bb)
+        a, c, x = fresh("a", T.I), fresh("c", T.I), fresh("x", m.ty.v.e.sort())
+        p.assume(z3.ForAll([a], z3.Implies(z3.And(0 <= a, a < ln), bb[bat(mv, kk, a)] >= 1), patterns=[bat(mv, kk, a)]))
+        p.assume(z3.Implies(z3.ForAll([x], bb[x] <= 1, patterns=[bb[x]]),
+                                   z3.ForAll([a, c], z3.Implies(z3.And(0 <= a, a < c, c < ln), bat(mv, kk, a) != bat(mv, kk, c)),
+                                             patterns=[z3.MultiPattern(bat(mv, kk, a), bat(mv, kk, c))])))
+        p.assume(z3.ForAll([x], z3.Implies(bb[x] >= 1, z3.And(0 <= bidx(mv, kk, x), bidx(mv, kk, x) < ln, bat(mv, kk, bidx(mv, kk, x)) == x)),
+                                  patterns=[bidx(mv, kk, x)]))
+        return mv, kk
 
     def np2_index(self, arr, sl, p, note):
         """a[i, j] on a 2-D numpy array (assumed library contract): IndexError outside [-n, n) per axis, negative indices count from the end."""
